@@ -174,6 +174,9 @@ func (n Node) validate() error {
 	if port <= 0 {
 		return errors.New("raft.Config: invalid port")
 	}
+	if n.Action > ForceRemove {
+		return errors.New("raft.Config: invalid action")
+	}
 	if n.Action == Promote && n.Voter {
 		return errors.New("raft.Config: voter can't be promoted")
 	}
